@@ -29,6 +29,8 @@ def main(pid, tier, seed, replay):
     progs = P.gen_programs(chk.rng.fork("c01"), n, features)
     cfgs = [P.Config("interpreter -j1", jobs=1)]
     stats, _ = P.differential(chk, progs, lambda p: cfgs, nontrivial=lambda p, o: any(o[1].values()))
+    # float aggregates are outside the Coq reference: judged against an exact python expectation (harness/floatagg.py)
+    __import__("floatagg").post_step(12, 200)(chk, progs, None, stats)
     chk.cov.update({"evaluations": stats["runs"], "distinct_nontrivial": stats["distinct_nontrivial"],
                     "rule": "seeded generator over the feature lattice (negation, constraints, int/unsigned/bit/string functors, records, ADTs, "
                             "aggregates incl. empty groups, range, recursion, mutual recursion, sentinel values); non-trivial = distinct program "
